@@ -178,6 +178,23 @@ def inventory(F, reach, wrappers):
     return inv, lines
 
 
+def crate_of(fnp):
+    m = re.search(r"([a-z_][a-z0-9_]*)::", fnp)
+    return m.group(1) if m else "?"
+
+
+def moved_sites(inv, table):
+    """Sites that left a function (`deficit`) can account for the same number of sites of the same kind that appear
+    in another function of the same crate: a function was split, merged, renamed or its code moved.  Returns
+    {(crate, kind): number of excess sites that such moves explain}."""
+    deficit = Counter()
+    for key, have in table.items():
+        n = inv.get(key, 0)
+        if have[0] > n:
+            deficit[(crate_of(key[0]), key[1])] += have[0] - n
+    return deficit
+
+
 def run(ctx):
     F = ctx.load(CRATES)
     cg = CallGraph(F)
@@ -201,10 +218,24 @@ def run(ctx):
     ctx.floor("panic-capable sites inventoried", sum(inv.values()), 500)
     classes = Counter()
     n_new = 0
+    budget = moved_sites(inv, table)
+    excess = Counter()
+    for key, n in inv.items():
+        have = table.get(key)
+        if have is None or n > have[0]:
+            excess[(crate_of(key[0]), key[1])] += n - (have[0] if have else 0)
     for key, n in sorted(inv.items()):
         fnp, kind = key
         have = table.get(key)
         where = "%s:%s" % lines[key][0]
+        ck = (crate_of(fnp), kind)
+        if (have is None or n > have[0]) and excess[ck] <= budget[ck]:
+            # as many sites of this kind left other functions of the crate as appeared here: code was moved
+            classes["moved"] += n
+            ctx.ob("R14.2", "%s|%s" % (fnp, kind), True,
+                   "%d site(s) of kind %s appear here while %d left other functions of %s: moved, the multiset did not grow" % (
+                       n - (have[0] if have else 0), kind, budget[ck], ck[0]), where)
+            continue
         if have is None:
             wit = " <- ".join(last_seg(x) for x in CallGraph.witness(reach, _unstrip(F, reach, fnp))[-4:])
             ctx.ob("R14.2", "%s|%s" % (fnp, kind), False,
